@@ -203,11 +203,14 @@ struct AnalyserInternalEquation
     static bool hasNonConstantVariables(const AnalyserInternalVariablePtrs &variables);
     bool hasNonConstantVariables();
 
-    bool variableOnLhsRhs(const AnalyserInternalVariablePtr &variable,
+    bool variableOnLhsRhs(const AnalyserModelPtr &model,
+                          const AnalyserInternalVariablePtr &variable,
                           const AnalyserEquationAstPtr &astChild,
                           bool rate);
-    bool variableOnRhs(const AnalyserInternalVariablePtr &variable, bool rate);
-    bool variableOnLhsOrRhs(const AnalyserInternalVariablePtr &variable, bool rate);
+    bool variableOnRhs(const AnalyserModelPtr &model,
+                       const AnalyserInternalVariablePtr &variable, bool rate);
+    bool variableOnLhsOrRhs(const AnalyserModelPtr &model,
+                            const AnalyserInternalVariablePtr &variable, bool rate);
 
     bool check(const AnalyserModelPtr &model, size_t &stateIndex, size_t &variableIndex, bool checkNlaSystems);
 };
@@ -297,32 +300,38 @@ bool AnalyserInternalEquation::hasNonConstantVariables()
     return hasNonConstantVariables(mVariables) || hasNonConstantVariables(mOdeVariables);
 }
 
-bool AnalyserInternalEquation::variableOnLhsRhs(const AnalyserInternalVariablePtr &variable,
+bool AnalyserInternalEquation::variableOnLhsRhs(const AnalyserModelPtr &model,
+                                                const AnalyserInternalVariablePtr &variable,
                                                 const AnalyserEquationAstPtr &astChild,
                                                 bool rate)
 {
+    // Note: the variable in the equation is the one of the component that holds the equation, which needs not be the
+    //       (primary) variable we track nor have its name, so we look for a variable that is equivalent to ours.
+
     // Note: when what an equation computes is the rate of a state (dx/dt) then only a derivative counts, and when it
     //       is a variable then only the variable itself counts, e.g. in dx/dt = x the unknown is on the LHS only.
 
     switch (astChild->type()) {
     case AnalyserEquationAst::Type::CI:
-        return !rate && (astChild->variable()->name() == variable->mVariable->name());
+        return !rate && model->areEquivalentVariables(astChild->variable(), variable->mVariable);
     case AnalyserEquationAst::Type::DIFF:
-        return rate && (astChild->rightChild()->variable()->name() == variable->mVariable->name());
+        return rate && model->areEquivalentVariables(astChild->rightChild()->variable(), variable->mVariable);
     default:
         return false;
     }
 }
 
-bool AnalyserInternalEquation::variableOnRhs(const AnalyserInternalVariablePtr &variable, bool rate)
+bool AnalyserInternalEquation::variableOnRhs(const AnalyserModelPtr &model,
+                                             const AnalyserInternalVariablePtr &variable, bool rate)
 {
-    return variableOnLhsRhs(variable, mAst->rightChild(), rate);
+    return variableOnLhsRhs(model, variable, mAst->rightChild(), rate);
 }
 
-bool AnalyserInternalEquation::variableOnLhsOrRhs(const AnalyserInternalVariablePtr &variable, bool rate)
+bool AnalyserInternalEquation::variableOnLhsOrRhs(const AnalyserModelPtr &model,
+                                                  const AnalyserInternalVariablePtr &variable, bool rate)
 {
-    return variableOnLhsRhs(variable, mAst->leftChild(), rate)
-           || variableOnRhs(variable, rate);
+    return variableOnLhsRhs(model, variable, mAst->leftChild(), rate)
+           || variableOnRhs(model, variable, rate);
 }
 
 bool AnalyserInternalEquation::check(const AnalyserModelPtr &model,
@@ -410,7 +419,7 @@ bool AnalyserInternalEquation::check(const AnalyserModelPtr &model,
     auto unknownIsRate = mVariables.empty();
 
     if (((unknownVariableLeft != nullptr)
-         && (checkNlaSystems || variableOnLhsOrRhs(unknownVariableLeft, unknownIsRate)))
+         && (checkNlaSystems || variableOnLhsOrRhs(model, unknownVariableLeft, unknownIsRate)))
         || !initialisedVariables.empty()) {
         auto variables = mVariables.empty() ?
                              mOdeVariables.empty() ?
@@ -460,7 +469,7 @@ bool AnalyserInternalEquation::check(const AnalyserModelPtr &model,
         //       be solved as an NLA equation.
 
         if ((unknownVariableLeft == nullptr)
-            || !variableOnLhsOrRhs(unknownVariableLeft, unknownIsRate)) {
+            || !variableOnLhsOrRhs(model, unknownVariableLeft, unknownIsRate)) {
             mType = Type::NLA;
         } else {
             switch (unknownVariableLeft->mType) {
@@ -3261,7 +3270,7 @@ void Analyser::AnalyserImpl::analyseModel(const ModelPtr &model)
             // Swap the LHS and RHS of the equation if its unknown variable is
             // on its RHS.
 
-            if (internalEquation->variableOnRhs(internalEquation->mUnknownVariables.front(), internalEquation->mType == AnalyserInternalEquation::Type::ODE)) {
+            if (internalEquation->variableOnRhs(mModel, internalEquation->mUnknownVariables.front(), internalEquation->mType == AnalyserInternalEquation::Type::ODE)) {
                 internalEquation->mAst->swapLeftAndRightChildren();
             }
 
